@@ -13,7 +13,8 @@ from symx.fp import SFloat
 
 PROPERTY = 'C20'
 META = {
-    'bounds': 'position packets: all flag bytes, x/y/z any finite binary64 '
+    'bounds': 'map packets whose header is as large as the map (128x128, '
+              '128x2) with short pixel arrays; ' 'position packets: all flag bytes, x/y/z any finite binary64 '
               'with |.| < 2^40, yaw/pitch any finite binary32 with |.| < 2^30 '
               'applied to any tracked angle in [0,360); map patches: shapes '
               '(w x h) from a small list, symbolic offsets (every placement '
@@ -583,6 +584,13 @@ def instances(tier, seed):
                         {'w': 3, 'h': 3, 'npix': 7}, W=64, budget_s=1800))
     out.append(Instance('map_apply:2x2:3px', 'map_apply',
                         {'w': 2, 'h': 2, 'npix': 3}, W=64, budget_s=1800))
+    # a header as large as the whole map with a short pixel array
+    out.append(Instance('map_apply:128x128:5px', 'map_apply',
+                        {'w': 128, 'h': 128, 'npix': 5}, W=64,
+                        budget_s=1800))
+    out.append(Instance('map_apply:128x2:130px', 'map_apply',
+                        {'w': 128, 'h': 2, 'npix': 130}, W=64,
+                        budget_s=1800))
     for L in (1, 2) + ((3,) if tier == 'thorough' else ()):
         out.append(Instance('player_list:%d' % L, 'player_list',
                             {'length': L}, W=64, budget_s=3000,
